@@ -300,7 +300,17 @@ def render_attr_case(c, k, canonical=False):
         if "allow_greedy" in named:
             a["greedy"] = True
         if c["poscb"] or "callback" in named:
-            a["cb"] = "|_| ()" if c["kind"] == "skip" else "|_| true"
+            unit = c["kind"] == "skip"
+            a["cb"] = {
+                "simple": "|_| ()" if unit else "|_| true",
+                "lt": "|lex| { let _ = lex.slice().len() < 3; }" if unit else "|lex| lex.slice().len() < 3",
+                "shift": "|lex| { let _ = 1usize << lex.slice().len(); }" if unit else "|lex| 1usize << lex.slice().len() > 4",
+                "generic": "|lex| { let _ = lex.slice().parse::<u8>(); }" if unit else "|lex| lex.slice().parse::<u8>().is_ok()",
+                "tuple": "|lex| { let _ = (lex.slice(), 1); }" if unit else "|lex| (lex.slice().len(), 2).0 > [0, 1][1]",
+                "block": "|lex| { let v = [1, 2]; let _ = v.len() > lex.slice().len(); }" if unit else "|lex| { let v = [1, 2]; v.len() > lex.slice().len() }",
+            }[c["cbv"]]
+            if c["cbv"] == "lt" and unit is False and not c["poscb"] and named and named[-1] != "callback":
+                pass
         if c["kind"] == "skip":
             d = corpus.mk("attr%d" % k, [corpus.tok("q")], [a])
         else:
@@ -338,7 +348,7 @@ def attr_run(tier, seed):
     for k, c in enumerate(cases):
         m1, m2 = metas[2 * k], metas[2 * k + 1]
         t1, t2 = tdefs[2 * k], tdefs[2 * k + 1]
-        key = "%s:%s:%s:%s" % (c["t"], c["kind"], "poscb" if c["poscb"] else "-", ",".join(c["named"]))
+        key = "%s:%s:%s:%s:%s" % (c["t"], c["kind"], "poscb" if c["poscb"] else "-", ",".join(c["named"]), c.get("cbv", "none"))
         if m1["panic"] or m2["panic"]:
             findings.append({"key": "attr:panic:" + key, "what": "derive panicked: %s" % (m1["panic"] or m2["panic"]), "source": m1["src"]})
             continue
